@@ -109,6 +109,14 @@ class Matcher:
                     return False
         if type(pat) is not type(node):
             return False
+        if isinstance(pat, ast.arg):
+            if pat.arg.startswith(MV):
+                key = pat.arg[len(MV):]
+                if key in bind:
+                    return bind[key] == node.arg
+                bind[key] = node.arg
+                return True
+            return pat.arg == node.arg
         if isinstance(pat, ast.Constant):
             return type(pat.value) is type(node.value) and pat.value == node.value
         for field, pv in ast.iter_fields(pat):
